@@ -175,7 +175,6 @@ func Compare(w *mc.World, m *model.State, tracked []string) []Disc {
 			}
 		}
 		// books
-		sumL, sumS := new(big.Int), new(big.Int)
 		for _, n := range tracked {
 			if strings.HasPrefix(n, "mod:") {
 				continue
@@ -190,28 +189,6 @@ func Compare(w *mc.World, m *model.State, tracked []string) []Disc {
 			if sr.Amount.Amount.BigInt().Cmp(m.SpentOf(n)) != 0 {
 				add(disc("ent.spent", "spent eFUND of %s: implementation %s, model %s", n, sr.Amount.Amount, m.SpentOf(n)))
 			}
-			sumL.Add(sumL, lr.Amount.Amount.BigInt())
-			sumS.Add(sumS, sr.Amount.Amount.BigInt())
-			// locked + spent = sum of completed orders
-			tot := new(big.Int).Add(lr.Amount.Amount.BigInt(), sr.Amount.Amount.BigInt())
-			comp := m.Ent.Completed[n]
-			if comp == nil {
-				comp = new(big.Int)
-			}
-			if tot.Cmp(comp) != 0 {
-				add(disc("ent.books", "%s: locked %s + spent %s != completed orders %s", n, lr.Amount.Amount, sr.Amount.Amount, comp))
-			}
-		}
-		var tl enttypes.QueryTotalLockedResponse
-		must(w.Query("/mainchain.enterprise.v1.Query/TotalLocked", &enttypes.QueryTotalLockedRequest{}, &tl))
-		var ts enttypes.QueryTotalSpentEFUNDResponse
-		must(w.Query("/mainchain.enterprise.v1.Query/TotalSpentEFUND", &enttypes.QueryTotalSpentEFUNDRequest{}, &ts))
-		esc := w.App.BankKeeper.GetBalance(w.Ctx(), mc.ModAddr("enterprise"), m.Ent.P.Denom).Amount.BigInt()
-		if tl.Amount.Amount.BigInt().Cmp(sumL) != 0 || esc.Cmp(sumL) != 0 {
-			add(disc("ent.books", "escrow balance %s, reported total locked %s, sum of per-account locked %s", esc, tl.Amount.Amount, sumL))
-		}
-		if ts.Amount.Amount.BigInt().Cmp(sumS) != 0 {
-			add(disc("ent.books", "reported total spent %s, sum of per-account spent %s", ts.Amount.Amount, sumS))
 		}
 	}
 
@@ -229,7 +206,6 @@ func Compare(w *mc.World, m *model.State, tracked []string) []Disc {
 		var sr streamtypes.QueryStreamsResponse
 		must(w.Query("/mainchain.stream.v1.Query/Streams", &streamtypes.QueryStreamsRequest{Pagination: &query.PageRequest{Limit: 1000}}, &sr))
 		seen := map[string]bool{}
-		sums := map[string]*big.Int{}
 		for _, r := range sr.Streams {
 			k := NameOfBech(w, r.Receiver) + "|" + NameOfBech(w, r.Sender)
 			seen[k] = true
@@ -239,10 +215,6 @@ func Compare(w *mc.World, m *model.State, tracked []string) []Disc {
 				continue
 			}
 			s := r.Stream
-			if sums[s.Deposit.Denom] == nil {
-				sums[s.Deposit.Denom] = new(big.Int)
-			}
-			sums[s.Deposit.Denom].Add(sums[s.Deposit.Denom], s.Deposit.Amount.BigInt())
 			if s.Deposit.Denom != st.Denom || s.Deposit.Amount.BigInt().Cmp(st.D) != 0 || s.FlowRate != st.R {
 				add(disc("str.deposit", "stream %s: implementation {deposit %s rate %d}, model {deposit %s%s rate %d}", k, s.Deposit, s.FlowRate, st.D, st.Denom, st.R))
 			}
@@ -252,36 +224,10 @@ func Compare(w *mc.World, m *model.State, tracked []string) []Disc {
 			if timeNs(s.LastOutflowTime).Cmp(st.L) != 0 {
 				add(Disc{Kind: "str.lastoutflow", Detail: fmt.Sprintf("stream %s: last outflow time implementation %s, model %s ns (now %s)", k, s.LastOutflowTime.UTC().Format(time.RFC3339Nano), st.L, m.Now)})
 			}
-			// advertised schedule must be sustainable: D >= r * floor(Z - L)
-			zl := new(big.Int).Sub(timeNs(s.DepositZeroTime), timeNs(s.LastOutflowTime))
-			if zl.Sign() > 0 && s.Deposit.Amount.IsPositive() {
-				need := new(big.Int).Mul(new(big.Int).Div(zl, big.NewInt(1_000_000_000)), big.NewInt(s.FlowRate))
-				if s.Deposit.Amount.BigInt().Cmp(need) < 0 {
-					add(disc("str.sustain", "stream %s: deposit %s cannot sustain rate %d from last outflow %s to advertised zero time %s (needs %s)", k, s.Deposit.Amount, s.FlowRate,
-						s.LastOutflowTime.UTC().Format(time.RFC3339Nano), s.DepositZeroTime.UTC().Format(time.RFC3339Nano), need))
-				}
-			}
 		}
 		for k := range m.Str {
 			if !seen[k] {
 				add(disc("str.state", "stream %s exists in the model but not in the implementation", k))
-			}
-		}
-		// escrow fully backed
-		ctx := w.Ctx()
-		for _, c := range w.App.BankKeeper.GetAllBalances(ctx, mc.ModAddr("stream")) {
-			s := sums[c.Denom]
-			if s == nil {
-				s = new(big.Int)
-			}
-			if c.Amount.BigInt().Cmp(s) != 0 {
-				add(disc("str.escrow", "stream escrow holds %s but the remaining deposits sum to %s%s", c, s, c.Denom))
-			}
-			delete(sums, c.Denom)
-		}
-		for d, s := range sums {
-			if s.Sign() != 0 {
-				add(disc("str.escrow", "stream escrow holds 0%s but the remaining deposits sum to %s", d, s))
 			}
 		}
 		for k, st := range m.Str {
@@ -510,3 +456,115 @@ func Invariants(w *mc.World) (out []Disc) {
 }
 
 var _ = sdk.AccAddress{}
+
+// SelfConsistency checks identities of the implementation's own committed state that need no
+// reference model: the eFUND books (C04), the stream escrow backing and sustain rule (C10/C11),
+// and every invariant registered with the crisis keeper. It runs after every block, also when
+// the model has already diverged from the implementation.
+func SelfConsistency(w *mc.World) []Disc {
+	var out []Disc
+	add := func(d ...Disc) { out = append(out, d...) }
+	ctx := w.Ctx()
+	ek := w.App.EnterpriseKeeper
+	denom := ek.GetParamDenom(ctx)
+	func() {
+		defer func() {
+			if p := recover(); p != nil {
+				add(disc("ent.books", "reading the eFUND books panicked: %v", p))
+			}
+		}()
+		sumL, sumS := new(big.Int), new(big.Int)
+		per := map[string]*big.Int{}
+		for _, l := range ek.GetAllLockedUnds(ctx) {
+			sumL.Add(sumL, l.Amount.Amount.BigInt())
+			per[l.Owner] = new(big.Int).Set(l.Amount.Amount.BigInt())
+		}
+		for _, sp := range ek.GetAllSpentEFUNDs(ctx) {
+			sumS.Add(sumS, sp.Amount.Amount.BigInt())
+			if per[sp.Owner] == nil {
+				per[sp.Owner] = new(big.Int)
+			}
+			per[sp.Owner].Add(per[sp.Owner], sp.Amount.Amount.BigInt())
+		}
+		comp := map[string]*big.Int{}
+		for _, po := range ek.GetAllPurchaseOrders(ctx) {
+			if po.Status == enttypes.StatusCompleted {
+				if comp[po.Purchaser] == nil {
+					comp[po.Purchaser] = new(big.Int)
+				}
+				comp[po.Purchaser].Add(comp[po.Purchaser], po.Amount.Amount.BigInt())
+			}
+		}
+		for a, v := range per {
+			c := comp[a]
+			if c == nil {
+				c = new(big.Int)
+			}
+			if v.Cmp(c) != 0 {
+				add(disc("ent.books", "%s: locked + spent = %s but its completed purchase orders sum to %s", NameOfBech(w, a), v, c))
+			}
+		}
+		for a, c := range comp {
+			if per[a] == nil && c.Sign() != 0 {
+				add(disc("ent.books", "%s: no locked/spent record but completed purchase orders sum to %s", NameOfBech(w, a), c))
+			}
+		}
+		tl := ek.GetTotalLockedUnd(ctx).Amount.BigInt()
+		ts := ek.GetTotalSpentEFUND(ctx).Amount.BigInt()
+		esc := w.App.BankKeeper.GetBalance(ctx, mc.ModAddr("enterprise"), denom).Amount.BigInt()
+		if tl.Cmp(sumL) != 0 || esc.Cmp(sumL) != 0 {
+			add(disc("ent.books", "escrow balance %s, reported total locked %s, sum of per-account locked %s", esc, tl, sumL))
+		}
+		if ts.Cmp(sumS) != 0 {
+			add(disc("ent.books", "reported total spent %s, sum of per-account spent %s", ts, sumS))
+		}
+		for _, c := range w.App.BankKeeper.GetAllBalances(ctx, mc.ModAddr("enterprise")) {
+			if c.Denom != denom && !c.IsZero() {
+				add(disc("ent.books", "enterprise escrow holds %s, which is not eFUND", c))
+			}
+		}
+	}()
+	// streams
+	func() {
+		defer func() {
+			if p := recover(); p != nil {
+				add(disc("str.escrow", "reading the streams panicked: %v", p))
+			}
+		}()
+		sums := map[string]*big.Int{}
+		w.App.StreamKeeper.IterateAllStreams(ctx, func(recv, sender sdk.AccAddress, s streamtypes.Stream) bool {
+			k := NameOfBech(w, recv.String()) + "|" + NameOfBech(w, sender.String())
+			if sums[s.Deposit.Denom] == nil {
+				sums[s.Deposit.Denom] = new(big.Int)
+			}
+			sums[s.Deposit.Denom].Add(sums[s.Deposit.Denom], s.Deposit.Amount.BigInt())
+			// advertised schedule must be sustainable: D >= r * floor(Z - L) for D > 0
+			zl := new(big.Int).Sub(timeNs(s.DepositZeroTime), timeNs(s.LastOutflowTime))
+			if zl.Sign() > 0 && s.Deposit.Amount.IsPositive() {
+				need := new(big.Int).Mul(new(big.Int).Div(zl, big.NewInt(1_000_000_000)), big.NewInt(s.FlowRate))
+				if s.Deposit.Amount.BigInt().Cmp(need) < 0 {
+					add(disc("str.sustain", "stream %s: deposit %s cannot sustain rate %d from last outflow %s to advertised zero time %s (needs %s)", k, s.Deposit.Amount, s.FlowRate,
+						s.LastOutflowTime.UTC().Format(time.RFC3339Nano), s.DepositZeroTime.UTC().Format(time.RFC3339Nano), need))
+				}
+			}
+			return false
+		})
+		for _, c := range w.App.BankKeeper.GetAllBalances(ctx, mc.ModAddr("stream")) {
+			s := sums[c.Denom]
+			if s == nil {
+				s = new(big.Int)
+			}
+			if c.Amount.BigInt().Cmp(s) != 0 {
+				add(disc("str.escrow", "stream escrow holds %s but the remaining deposits sum to %s%s", c, s, c.Denom))
+			}
+			delete(sums, c.Denom)
+		}
+		for d, s := range sums {
+			if s.Sign() != 0 {
+				add(disc("str.escrow", "stream escrow holds 0%s but the remaining deposits sum to %s", d, s))
+			}
+		}
+	}()
+	add(Invariants(w)...)
+	return out
+}
